@@ -640,9 +640,9 @@ func (e *Engine) invoke(st *State, fr *Frame, recv Val, m *types.Func, args []Va
 		cv := *recv.Fn.Bound
 		ms := e.prog.MethodSets.MethodSet(cv.T)
 		if sel := ms.Lookup(m.Pkg(), m.Name()); sel != nil {
-			fn := e.prog.MethodValue(sel)
+			fn, menv := e.methodOf(sel, cv.T, fr.env)
 			if fn != nil {
-				e.callStatic(st, fr, fn, nil, nil, append([]Val{cv}, args...), rt, pos, k)
+				e.callStatic(st, fr, fn, menv, nil, append([]Val{cv}, args...), rt, pos, k)
 				return
 			}
 		}
